@@ -9,6 +9,7 @@ import (
 	"oras.land/oras-go/v2/content/file"
 	"oras.land/oras-go/v2/content/memory"
 	"oras.land/oras-go/v2/content/oci"
+	"oras.land/oras-go/v2/registry/remote"
 )
 
 // Store is what every built-in target offers.
@@ -42,6 +43,18 @@ func NewStore(kind string) (Store, func()) {
 			panic(err)
 		}
 		return s, func() { os.RemoveAll(dir) }
+	case "remote-api", "remote-tags":
+		g := NewRegistry("reg.example", Profile{ReferrersAPI: kind == "remote-api", OCISubject: kind == "remote-api"})
+		r, err := remote.NewRepository("reg.example/pair/repo")
+		if err != nil {
+			panic(err)
+		}
+		r.Client = g
+		return r, func() {
+			if len(g.Rejects) > 0 {
+				panic("registry model rejected a request: " + g.Rejects[0])
+			}
+		}
 	case "file":
 		dir := Scratch("file")
 		s, err := file.New(dir)
